@@ -31,6 +31,7 @@ EXTENDS Naturals, Sequences, FiniteSets, TLC
 
 CONSTANTS PFamily,                 \* set of integer instances (records with an `id`)
           PCap,                    \* fuel of the forced rollouts
+          PFault,                  \* "none"; "lossy" = a deliberately wrong codec (self-test: the clauses must fail)
           EInit(_), EMask(_, _), EStep(_, _, _), EDone(_, _), EReward(_, _, _)
 
 VARIABLES inst, codec, o, r, hist
@@ -52,7 +53,15 @@ PRepad(i, k) == [i EXCEPT !.P = k,
 PCodecs(i) == {[kind |-> "same", pad |-> 0]}
               \cup (IF PIsSched(i) THEN {[kind |-> "text", pad |-> k] : k \in PNOps(i)..(i.P + 1)} ELSE {})
 
-PRestored(i, c) == IF c.kind = "text" THEN PRepad(i, c.pad) ELSE i
+\* self-test codecs: the text reader loses the last real operation's durations; the lossless
+\* carrier rescales a capacity-type field (a normalisation applied once too often)
+PLossy(i, c) == IF c.kind = "text"
+                  THEN [PRepad(i, c.pad) EXCEPT !.pt = [m \in 1..i.M |-> [p \in 1..c.pad |->
+                                                   IF p < PNOps(i) THEN i.pt[m][p] ELSE 0]]]
+                  ELSE IF "cap" \in DOMAIN i THEN [i EXCEPT !.cap = i.cap + 1] ELSE i
+
+PRestored(i, c) == IF PFault = "lossy" THEN PLossy(i, c)
+                   ELSE IF c.kind = "text" THEN PRepad(i, c.pad) ELSE i
 
 \* instance content up to padding: the padded columns are not part of the instance
 PContent(i) == IF PIsSched(i) THEN PRepad(i, PNOps(i)) ELSE i
